@@ -17,12 +17,12 @@ def par_cmds(exe, cmdlists):
         return list(ex.map(lambda c: run_cmds(exe, c), cmdlists))
 
 def check(run, replay=None):
-    gate = V.proof_gate(GROUP, PROPFILE, force=(run.tier == "thorough"))
+    gate = V.proof_gate(GROUP, PROPFILE, force=(run.tier == "thorough"), chk=(run.tier == "thorough"))
     run.coverage.update(obligations=gate["obligations"], discharged=gate["discharged"],
                         checker_cmd="make -C coq/crc (coq_makefile, full .vo) ; coqc C19.v ; Print Assumptions",
                         trusted_base=V.TRUSTED_BASE_COMMON + [
                             "modelled: crc7/crc16 of src/sdcard/proto.rs transcribed on N with explicit u8/u16 masks; inputs are byte lists (every element < 256)"],
-                        theorems=gate["theorems"], axioms=gate["axioms"])
+                        theorems=gate["theorems"], axioms=gate["axioms"], coqchk=gate.get("coqchk", "quick tier: not run"))
     for pb in gate["problems"]:
         run.violation("proof obligation: " + pb, "theorem/obligation no longer checks:\n" + pb, no_input=True)
     model = V.ocaml_build(GROUP)
